@@ -437,8 +437,12 @@ def check_names(ctx, facts):
     """(C) by name: each executable export, called by its NAME on inputs that separate every pair of operations,
     must behave as the operation / back end / fusedness its name announces (model of the name's meaning)."""
     g = Gen(ctx.seed * 31 + 11)
-    for config in ("stable", "nightly"):
+    # third pass: the stable sources compiled with -C target-feature=+avx2,+fma (FMA declared at compile time): a routine whose
+    # NAME says nofma must stay unfused whatever the build declares (rows of the Avx2 / Fallback float back ends only)
+    for config, variant in (("stable", None), ("nightly", None), ("stable", "fma")):
         rows = select(facts, config)
+        if variant:
+            rows = [(i, e) for i, e in rows if e["ty"][0] == "f" and e["reg"] in ("Avx2", "Fallback")]
         cases, meta = [], []
         for idx, e in rows:
             mean = meaning_of_name(e["xany"])
@@ -467,12 +471,14 @@ def check_names(ctx, facts):
                     meta.append((idx, e, "a", n, cls, "R", "%s:%s:%s" % (ty, reg, kern)))
         if not cases:
             continue
-        ok, log = harness_build.build_cfh(config)
+        ok, log = harness_build.build_cfh(config, variant=variant)
         okd, logd = harness_build.build_driver()
         if not ok or not okd:
-            ctx.broke("correspondence", "C:by-name build (%s)" % config, (log if not ok else logd)[-1200:])
+            ctx.broke("correspondence", "C:by-name build (%s%s)" % (config, "+" + variant if variant else ""), (log if not ok else logd)[-1200:])
             continue
-        imp = runner.impl("exp", cases, config=config)
+        imp = runner.impl("exp", cases, config=config, variant=variant)
+        if variant:
+            config = config + " built with " + harness_build.VARIANTS[variant]
         named = [" ".join([m[6]] + c.split(" ")[1:]) for c, m in zip(cases, meta)]
         mod = runner.model("exp", named)
         bad = 0
